@@ -177,12 +177,13 @@ def none_test(e):
 # ---------------------------------------------------------------------------------------------------------------
 # extract-method invariance for path rules: a *view* of a function in which calls of private helpers that are
 # used as statements (`_helper(a, b)` / `self._helper(a)`, no value returned) are replaced by the helper's body.
-def inlined_view(prog, fn, depth=2):
+def inlined_view(prog, fn, depth=2, keep=()):
     """Copy of `fn` (FunctionInfo) whose body has the void private helpers it calls as statements spliced in:
     parameters are replaced by the argument expressions, the helper's own locals get a prefix, early `return`s become
     if/else nesting.  Rules that reason over paths of one function (CFG reachability, data-flow origins) use the
     view, so that moving a block of statements into a helper does not change what they see.  Helpers that return a
-    value, yield, or are called inside expressions are left as calls."""
+    value, yield, or are called inside expressions are left as calls, and so are the helpers named in `keep` (calls
+    the rule itself uses as anchors)."""
     import copy
     unit = {f.name: f for f in unit_functions(prog, fn, depth=depth)[1:]}
     if not unit:
@@ -234,7 +235,7 @@ def inlined_view(prog, fn, depth=2):
                 elif isinstance(c.func, ast.Attribute) and isinstance(c.func.value, ast.Name) and \
                         c.func.value.id in ('self', 'cls'):
                     h = unit.get(c.func.attr)
-            if h is None or h.name in fn.nested or not void(h) or level <= 0:
+            if h is None or h.name in fn.nested or h.name in keep or not void(h) or level <= 0:
                 res.append(st)
                 continue
             params = list(h.params)
